@@ -18,7 +18,7 @@ func init() {
 		Explanation: "(R1) live update => config record: for every mutator of live state (routers, single routes, clusters, hosts, cluster removal, cluster-manager TLS, listeners) every path that performs the live store and returns success also calls the matching configmanager recorder with the very value made live; " +
 			"(R2) build aside, swap once: RoutersWrapper.routers/routersConfig are written together in one critical section and read under the lock, the new route table is built before the lock is taken; the effective-config maps are touched only with configLock held, writes under the write lock; " +
 			"(R3) no last-writer-wins loop: a replace-semantics update (TriggerClusterHostUpdate / UpdateClusterHosts / AddOrUpdateRouters) must not sit in a loop whose iterations share the key while the value is produced inside the loop; " +
-			"(R4) removal really removes: the live entry is deleted and the removal recorded for the same name; RemoveAllRoutes clears both the route list and its index. (R5) every exported configmanager.Set* recorder writes the value it was given into the model on every path; only a nil parameter, a missing key or a whole-value reflect.DeepEqual may skip it. (R6) in UpdateCluster no call through the update handler receives the new cluster after clustersMap.Store made it visible, and the stored object is the one built from the new configuration.",
+			"(R4) removal really removes: the live entry is deleted and the removal recorded for the same name; RemoveAllRoutes clears both the route list and its index. (R5) every exported configmanager.Set* recorder writes the value it was given into the model on every path; only a nil parameter, a missing key or a whole-value reflect.DeepEqual may skip it. (R6) in UpdateCluster no call through the update handler receives the new cluster after clustersMap.Store made it visible, and the stored object is the one built from the new configuration. (R7) NewRouters appends every configured virtual host (no path around the append inside the loop over routerConfig.VirtualHosts) and hands generateHostWithPortConfig the range index of that loop.",
 		Run: runC12,
 	})
 }
